@@ -7,6 +7,7 @@ import (
 	"path/filepath"
 	"runtime/debug"
 	"strings"
+	"sync"
 	"unicode/utf8"
 
 	at "github.com/DanielSvub/anytype"
@@ -203,6 +204,46 @@ func runC04(c *fw.Ctx) {
 	})
 	c.Cases("soup", c.N(200000, 20000000), false, func(i int, r *rng.R) {
 		c04Both(c, genSoup(r))
+	})
+
+	// the same inputs parsed by several goroutines at once give the outcomes they give sequentially
+	c.Cases("concurrent", c.N(40, 2000), false, func(i int, r *rng.R) {
+		g := r.Range(2, 10)
+		inputs := make([]string, g)
+		want := make([][2]parseOutcome, g)
+		for j := range inputs {
+			inputs[j] = genSoup(r)
+			want[j] = [2]parseOutcome{doParseList(inputs[j]), doParseObject(inputs[j])}
+		}
+		var wg sync.WaitGroup
+		var mu sync.Mutex
+		var bad []string
+		start := make(chan struct{})
+		for j := range inputs {
+			wg.Add(1)
+			go func(j int) {
+				defer wg.Done()
+				<-start
+				for rep := 0; rep < 30; rep++ {
+					l, o := doParseList(inputs[j]), doParseObject(inputs[j])
+					if !sameOutcome(l, want[j][0]) || !sameOutcome(o, want[j][1]) {
+						mu.Lock()
+						if len(bad) < 3 {
+							bad = append(bad, fmt.Sprintf("%s: concurrently %+v / %+v, sequentially %+v / %+v", quoteBytes(inputs[j]), l, o, want[j][0], want[j][1]))
+						}
+						mu.Unlock()
+						return
+					}
+				}
+			}(j)
+		}
+		close(start)
+		wg.Wait()
+		c.Count("concurrent_parse_rounds")
+		c.Distinct(strings.Join(inputs, "|"))
+		if len(bad) > 0 {
+			c.Violate("parse-outcome-differs-under-concurrency", fmt.Sprintf("%d goroutines parsing at the same time", g), "the sequential outcomes", strings.Join(bad, "\n"))
+		}
 	})
 
 	// (b) every proper prefix of a serialised document is rejected
